@@ -99,7 +99,11 @@ func (m *Monitor) loop() {
 			name, cpu0 := m.caseName, m.caseCPU0
 			m.mu.Unlock()
 			if used := CPUSeconds() - cpu0; used > m.cpuBudget {
-				fmt.Fprintf(os.Stderr, "\nVERIF-ABORT cpu-budget-exceeded %s used %.1f s of CPU (cap %.0f s): the call does not terminate in time proportional to its input\n", name, used, m.cpuBudget)
+				phase := name
+				if i := strings.Index(phase, ":"); i > 0 {
+					phase = phase[:i]
+				}
+				fmt.Fprintf(os.Stderr, "\nVERIF-ABORT cpu-budget-exceeded/%s :: %s used %.1f s of CPU (cap %.0f s): the call does not terminate in time proportional to its input\n", phase, name, used, m.cpuBudget)
 				pprof.Lookup("goroutine").WriteTo(os.Stderr, 2)
 				os.Exit(3)
 			}
